@@ -1,1 +1,10 @@
 import Bcder.Props.C01
+#print axioms Bcder.Props.C01.generic_total
+#print axioms Bcder.Props.C01.generic_never_panics
+#print axioms Bcder.Props.C01.nested_never_panics_definite
+#print axioms Bcder.Props.C01.nested_never_panics_indefinite
+#print axioms Bcder.Props.C01.fuel_adequate
+#print axioms Bcder.Props.C01.generic_terminates
+#print axioms Bcder.Props.C01.leaves_run
+#print axioms Bcder.Props.C01.stepG0_err_panic
+#print axioms Bcder.Props.C01.parseValue_consumes
